@@ -216,7 +216,11 @@ class Poly:
                     if r is not None:
                         return Poly.const(r)
                 return Poly.atom(("u", self), e)
-            # c * mono with c != 1 and non-integer exponent: split  c^e * mono^e
+            if c < 0:
+                # negative coefficient under a fractional / symbolic power: keep (c * mono) as one named sub-term
+                # (splitting would pick the wrong branch: (-x)^(1/2) is not (-1)^(1/2) * x^(1/2))
+                return Poly.atom(("u", self), e)
+            # c * mono with c > 0, c != 1 and non-integer exponent: split  c^e * mono^e
             cpart = Poly.const(c).pow(e)
             mpart = Poly({m: Fr(1)}).pow(e)
             return cpart * mpart
